@@ -69,6 +69,13 @@ def Rx.recv (A : Aead) (r : Rx) (chunk : Bytes) : Rx × Bytes :=
     | none => ({ r with closed := true }, [])
     | some (b, c, out) => ({ buf := b, cnt := c, closed := false }, out)
 
+/-- `HAPServerProtocol._process_response` when the pair-verify completion response upgrades a
+    plaintext connection. `leftover` is what the HTTP parser still holds at that moment: bytes that
+    were received in plaintext before the session existed (`h11.Connection.trailing_data`). They are
+    not payloads of authentic frames: the parser is replaced, the connection is closed. -/
+def upgrade (leftover : Bytes) : Rx :=
+  if leftover = [] then {} else { closed := true }
+
 /-- feed a list of reads; total bytes handed to the HTTP layer -/
 def Rx.run (A : Aead) : Rx → List Bytes → Rx × Bytes
   | r, [] => (r, [])
